@@ -17,12 +17,12 @@ import (
 )
 
 type c18Set struct {
-	id             uint64
-	scrypt, argon  bool
-	key64          string
-	cost           uint64
-	r, p           int64
-	t, m, th, ln   uint64
+	id            uint64
+	scrypt, argon bool
+	key64         string
+	cost          uint64
+	r, p          int64
+	t, m, th, ln  uint64
 }
 
 type c18Tree struct {
